@@ -180,6 +180,15 @@ static string WorldKey(const vfs::Disk& d, bool skip_dirs = false) {
   return k;
 }
 
+/// The world as far as a build can tell: a pending recompaction is bookkeeping of the log files, not part of what they say
+/// (the tools that load the logs may compact them).
+static string MeaningKey(const vfs::Disk& d) {
+  string k = WorldKey(d);
+  const string tok = "RECOMPACTION-PENDING;";
+  for (size_t p; (p = k.find(tok)) != string::npos;) k.erase(p, tok.size());
+  return k;
+}
+
 // ---------------------------------------------------------------------------------------------
 // Violations
 // ---------------------------------------------------------------------------------------------
@@ -980,6 +989,13 @@ struct Explorer {
       x.facts.set("an_output_was_missing_before_the_failing_build", missing_before);
       x.facts.set("generator", v->stmts[p->second].generator);
       x.facts.set("next_exit", r2.exit_code);
+      {
+        // plain depfile mode: the depfile on disk is read by every later scan, also the debris of a tool that died
+        auto fi = op.cfg.faults.find(id);
+        bool bad = fi != op.cfg.faults.end() && fi->second.bad_depfile && v->stmts[p->second].deps.empty() &&
+                   !v->stmts[p->second].depfile.empty() && r2.cmds.empty() && r2.out.find("expected ':' in depfile") != string::npos;
+        x.facts.set("the_next_build_refuses_the_unparsable_depfile_the_failed_command_left", bad);
+      }
       out->push_back(x);
     }
   }
@@ -1639,7 +1655,7 @@ struct Explorer {
     // itself, so its mere (empty) existence is not judged -- only for tools, a dry run does not create it
     vfs::Disk before_cmp = before;
     if (!sc.builddir.empty() && !op.dry_run && !before.Get(sc.builddir) && after.Get(sc.builddir)) before_cmp.MkdirP(sc.builddir);
-    if (WorldKey(before_cmp) != WorldKey(after)) {
+    if (MeaningKey(before_cmp) != MeaningKey(after)) {
       Violation x; x.prop = "C19"; x.clause = "world-changed";
       string what;
       for (auto& kv : before.files) {
@@ -1664,7 +1680,7 @@ struct Explorer {
       RunResult r1 = RunNinja(&d1, cfg, {}), r2 = RunNinja(&d2, cfg, {});
       st.invocations += 2;
       if (r1.exit_code != r2.exit_code || js::Dump(StartedList(r1)) != js::Dump(StartedList(r2)) ||
-          WorldKey(d1) != WorldKey(d2)) {
+          MeaningKey(d1) != MeaningKey(d2)) {
         Violation x; x.prop = "C19"; x.clause = "next-build-differs";
         x.detail = "the build after '" + op.label + "' differs from the build without it: started " +
                    js::Dump(StartedList(r2)) + " vs " + js::Dump(StartedList(r1));
@@ -3077,11 +3093,13 @@ struct Explorer {
     }
     for (auto& kv : sc.variants[0].files) w0.disk.Write(kv.first, kv.second);
     // init ops, default schedule
+    bool last_init_ok = false;
     for (int opi : sc.init) {
       const Op& op = sc.ops[opi];
       if (op.kind == Op::kNinja) {
         RunResult r = RunNinja(&w0.disk, op.cfg, {});
         st.invocations++;
+        last_init_ok = r.exit_code == 0;
         if (!op.expect_error && r.out.find("ninja: error: build.ninja:") != string::npos) {
           // a scenario generator wrote a manifest ninja does not accept: not a verdict about ninja
           fprintf(stderr, "HARNESS ERROR: initial build of %s: %s\n", sc.name.c_str(), r.out.c_str());
@@ -3096,7 +3114,7 @@ struct Explorer {
       }
     }
     if (!sc.init.empty() && sc.ops[sc.init.back()].kind == Op::kNinja && sc.ops[sc.init.back()].targets.empty() &&
-        sc.ops[sc.init.back()].cfg.faults.empty())
+        sc.ops[sc.init.back()].cfg.faults.empty() && last_init_ok)   // a converged base needs a build that succeeded
       w0.base = make_shared<vfs::Disk>(w0.disk);
     // Visited set: 128-bit digests of the canonical keys (two independent 64-bit hashes); the keys
     // themselves are ~1 KiB each and made the deep tiers run out of memory.
